@@ -1,0 +1,19 @@
+// Copyright (c) Microsoft Corporation
+// SPDX-License-Identifier: MIT
+
+//! Library facade used only by the external verification harness.
+//! It is compiled to an empty crate unless the `verif` feature is enabled;
+//! the service itself is built from `main.rs` and is not affected.
+#![cfg(feature = "verif")]
+
+pub mod acl;
+pub mod common;
+pub mod host_clients;
+pub mod key_keeper;
+pub mod provision;
+pub mod proxy;
+pub mod proxy_agent_status;
+pub mod redirector;
+pub mod service;
+pub mod shared_state;
+pub mod telemetry;
